@@ -764,7 +764,7 @@ class NestedSequenceConverter(t.Generic[T, U], Converter[T]):
             # 0-d array: a single value, not iterable
             # (numpy.str_/numpy.bytes_ scalars also have shape (), but index like str/bytes)
             val = val[()]
-        if data_is_iterable(val):
+        if data_is_iterable(val) and not data_is_mapping(val):
             return list(map(self._into_data, val))
         if self.val_type in (t.Any, t.cast(t.Type[t.Any], type(t.Any))):
             return make_converter(t.cast(t.Type[t.Any], type(val)), self.handlers).into_data(val)
